@@ -98,6 +98,17 @@ def run(ctx):
     for tail, w in cases:
         depth = rng.choice([0, 0, 1, 2, 3, 4, 5, 6])
         progs.append(history(rng, depth, tail) + " " + w)
+    # operands that carry a non-zero position (they come out of `elem`): every operation numbers its own results afresh
+    if not ctx.replay:
+        for w in UNARY + BINARY:
+            for t in (types if ctx.tier == "quick" else types * 4):
+                vs = [rng.choice(POOL[t]) for _ in range(3)]
+                if w in UNARY:
+                    progs.append("[%s] elem %s" % (", ".join(vs), w))
+                else:
+                    other = rng.choice(POOL[rng.choice([t, t, rng.choice(types)])])
+                    progs.append("[%s] elem %s %s" % (", ".join(vs), other, w))
+                    progs.append("%s [%s] elem %s" % (other, ", ".join(vs), w))
     # underflow behaviour at depths 0..2 for every word
     for w in UNARY + BINARY + TERNARY:
         for d in range(3):
